@@ -35,20 +35,20 @@ var (
 func c07Specs(tier string) []spaceSpec {
 	if tier == "thorough" {
 		return []spaceSpec{
-			{&gram.Space{Name: "root+inline-memo+trims", Alpha: fullMemoTrim, HasRoot: true, Min: 1, Max: 5}, 3, abSpace},
-			{&gram.Space{Name: "root+1shared+trims", Alpha: fullMemoTrim, NSh: 1, HasRoot: true, Min: 2, Max: 5}, 3, abSpace},
-			{&gram.Space{Name: "root+2shared", Alpha: gram.Full, NSh: 2, HasRoot: true, Min: 3, Max: 6}, 3, ab},
-			{&gram.Space{Name: "full-1nt", Alpha: gram.Full, NNT: 1, Min: 1, Max: 5}, 4, ab},
-			{&gram.Space{Name: "core-1nt", Alpha: gram.Core, NNT: 1, Min: 6, Max: 7}, 3, ab},
-			{&gram.Space{Name: "full-2nt", Alpha: gram.Full, NNT: 2, Min: 2, Max: 5}, 3, ab},
+			{sp: &gram.Space{Name: "root+inline-memo+trims", Alpha: fullMemoTrim, HasRoot: true, Min: 1, Max: 5}, maxLen: 3, alpha: abSpace},
+			{sp: &gram.Space{Name: "root+1shared+trims", Alpha: fullMemoTrim, NSh: 1, HasRoot: true, Min: 2, Max: 5}, maxLen: 3, alpha: abSpace},
+			{sp: &gram.Space{Name: "root+2shared", Alpha: gram.Full, NSh: 2, HasRoot: true, Min: 3, Max: 6}, maxLen: 3, alpha: ab},
+			{sp: &gram.Space{Name: "full-1nt", Alpha: gram.Full, NNT: 1, Min: 1, Max: 5}, maxLen: 4, alpha: ab},
+			{sp: &gram.Space{Name: "core-1nt", Alpha: gram.Core, NNT: 1, Min: 6, Max: 7}, maxLen: 3, alpha: ab},
+			{sp: &gram.Space{Name: "full-2nt", Alpha: gram.Full, NNT: 2, Min: 2, Max: 5}, maxLen: 3, alpha: ab},
 		}
 	}
 	return []spaceSpec{
-		{&gram.Space{Name: "root+inline-memo+trims", Alpha: fullMemoTrim, HasRoot: true, Min: 1, Max: 4}, 3, abSpace},
-		{&gram.Space{Name: "root+1shared+trims", Alpha: fullMemoTrim, NSh: 1, HasRoot: true, Min: 2, Max: 4}, 3, abSpace},
-		{&gram.Space{Name: "root+2shared", Alpha: gram.Full, NSh: 2, HasRoot: true, Min: 3, Max: 5}, 3, ab},
-		{&gram.Space{Name: "full-1nt", Alpha: gram.Full, NNT: 1, Min: 1, Max: 4}, 4, ab},
-		{&gram.Space{Name: "core-1nt", Alpha: gram.Core, NNT: 1, Min: 5, Max: 6}, 3, ab},
+		{sp: &gram.Space{Name: "root+inline-memo+trims", Alpha: fullMemoTrim, HasRoot: true, Min: 1, Max: 4}, maxLen: 3, alpha: abSpace},
+		{sp: &gram.Space{Name: "root+1shared+trims", Alpha: fullMemoTrim, NSh: 1, HasRoot: true, Min: 2, Max: 4}, maxLen: 3, alpha: abSpace},
+		{sp: &gram.Space{Name: "root+2shared", Alpha: gram.Full, NSh: 2, HasRoot: true, Min: 3, Max: 5}, maxLen: 3, alpha: ab},
+		{sp: &gram.Space{Name: "full-1nt", Alpha: gram.Full, NNT: 1, Min: 1, Max: 4}, maxLen: 4, alpha: ab},
+		{sp: &gram.Space{Name: "core-1nt", Alpha: gram.Core, NNT: 1, Min: 5, Max: 6}, maxLen: 3, alpha: ab},
 	}
 }
 
@@ -128,13 +128,13 @@ type frame struct {
 }
 
 type c07Monitor struct {
-	snaps   []*snap
-	index   map[any]int
-	blame   bool
-	stack   []*frame
-	found   *c07Finding
-	checks  int64
-	rehits  int64
+	snaps  []*snap
+	index  map[any]int
+	blame  bool
+	stack  []*frame
+	found  *c07Finding
+	checks int64
+	rehits int64
 }
 
 type c07Finding struct {
